@@ -442,7 +442,7 @@ def definitions(case):
 
 
 def _prec_enum(tier):
-    for imports in (["moda"], ["modb"], ["moda", "modb"], ["modb", "moda"]):
+    for imports in (["moda"], ["modb"], ["moda", "modb"], ["modb", "moda"], ["moda", "modb", "moda"], ["modb", "moda", "modb"], ["moda", "moda"], ["modb", "modb", "moda"]):
         for inject in (False, True):
             for call in ("one", "two", "float"):
                 for extra in (False, True):
@@ -484,6 +484,27 @@ def precedence(case):
             raise Violation("losing-definition-used", f"GP bound to {gp.gate_def!r}, expected the injected definition\n--- program:\n{text}", where=winner)
         if c.native_gates.get("GP") is not gp.gate_def:
             raise Violation("native-table-inconsistent", f"circuit.native_gates['GP'] is not the definition used\n--- program:\n{text}", where=winner)
+    # a gate with the SAME name and signature in both modules but another unitary: the later
+    # import's definition object must be the native one, and it is the one emulated
+    import importlib
+
+    from jaqalpaq.emulator import run_jaqal_circuit
+
+    text2 = "\n".join(lines[: len(case["imports"])] + ["register q[2]", "prepare_all", "SP q[0]", "measure_all"]) + "\n"
+    st_, c2 = guard(parse, text2, inject_pulses=inj, autoload_pulses=True, what="parse", allowed=None)
+    if st_ == "err":
+        raise Violation("winning-definition-rejected", f"{c2}\n--- program:\n{text2}", where="same-signature")
+    last = case["imports"][-1]
+    want_def = importlib.import_module("vlib.pulses." + last).jaqal_gates.ALL_GATES["SP"]
+    sp = [s_ for s_ in c2.body.statements if s_.name == "SP"][0]
+    if sp.gate_def is not want_def or c2.native_gates.get("SP") is not want_def:
+        raise Violation("losing-definition-used", f"SP is not the definition of the last import ({last})\n--- program:\n{text2}", where="same-signature")
+    st_, r2 = guard(run_jaqal_circuit, c2, what="run_jaqal_circuit")
+    if st_ == "err":
+        raise Violation("winning-definition-rejected", f"run: {r2}\n--- program:\n{text2}", where="same-signature")
+    p1 = float(r2.subcircuits[0].simulated_probability_by_int[1])
+    if abs(p1 - (1.0 if last == "moda" else 0.0)) > 1e-9:
+        raise Violation("losing-definition-used", f"SP emulated with the other module's unitary: P(q0=1) = {p1}, last import {last}\n--- program:\n{text2}", where="same-signature-emulated")
     return {"nontrivial": True, "classes": ["winner:" + winner, "imports:%d" % len(case["imports"])], "key": repr(case), "sample": {"text": text, "injected": case["inject"], "accepted": expect_ok}}
 
 
